@@ -241,6 +241,7 @@ def check_entry(entry, degrees=None):
 
 MC = dict(MCRefs1=[(1,), (2,), (1, 1)],
           MCRefs2=[(1,), (2,), (3,), (1, 1), (1, 2), (2, 1), (1, 1, 1)],
+          MCRefsQ=[(1,), (2,), (3,), (1, 1), (1, 2)],
           MCTrim2=[(1,), (2,), (1, 1)],
           MCTrim3=[(1,), (2,), (1, 1), (3,), (1, 2), (1, 1, 1)],
           MCLevels1=[1], MCLevels2=[1, 2], MCRefine0=[0], MCRefine01=[0, 1])
